@@ -558,3 +558,61 @@ pub fn decoder_error_paths(ctx: &Ctx, rep: &mut Report, unit: &mut usize) {
     }
     rep.note("decoder error paths at production limits: a 3-chunk message truncated at every position within 4 bytes of each header x 4 methods; chunk bodies containing FE FD; long borrowed chunk followed by each out-of-radix header byte x 4 methods x 3 segmentations (with a post-error arena flush and liveness check)".to_string());
 }
+
+/// The length bound "over all lengths": EVERY input length from 0 to two (quick) / four (thorough)
+/// later-chunk limits plus a margin, for two stuff-free fillings (a plain byte, and FE - the byte the
+/// encoder holds back), encoded by one borrowing call.  Only the output LENGTH is looked at (no
+/// copy is made), against the statement's bound and against the exact length the format defines
+/// (one header byte, then two per later chunk, the message ending on a short chunk).
+pub fn length_sweep(ctx: &Ctx, rep: &mut Report, unit: &mut usize) {
+    static FILL: std::sync::OnceLock<[Vec<u8>; 2]> = std::sync::OnceLock::new();
+    let max_len = ctx.tier.pick(2usize, 4) * 64008 + 1000;
+    let fills = FILL.get_or_init(|| [vec![0x41u8; 4 * 64008 + 1000], vec![0xFEu8; 4 * 64008 + 1000]]);
+    let mut lengths = 0u64;
+    for (fi, fill) in fills.iter().enumerate() {
+        // blocks of 64 consecutive lengths per unit
+        let mut lo = 0usize;
+        while lo <= max_len {
+            let hi = (lo + 64).min(max_len + 1);
+            let u = *unit;
+            *unit += 1;
+            if ctx.owns(u) {
+                for len in lo..hi {
+                    lengths += 1;
+                    rep.evaluations += 1;
+                    rep.transitions += 2;
+                    let input: &'static [u8] = unsafe { std::mem::transmute::<&[u8], &'static [u8]>(&fill[..len]) };
+                    let got = catch(|| {
+                        let mut enc = hcobs::Encoder::new();
+                        enc.encode(input);
+                        enc.finish().total_size()
+                    });
+                    let bound = len + 1 + 2 * len.div_ceil(64008);
+                    let exact = if len < 252 { len + 1 } else { len + 1 + 2 * (1 + (len - 252) / 64008) };
+                    let err = match got {
+                        Err(p) => Some(format!("panic: {}", p)),
+                        Ok(n) if n > bound => Some(format!("[shape] [canon] a {}-byte input of {:02X} bytes encodes to {} bytes, above the bound len + 1 + 2*ceil(len/64008) = {}", len, fill[0], n, bound)),
+                        Ok(n) if n != exact => Some(format!("[canon] a {}-byte input of {:02X} bytes encodes to {} bytes; the format defines {} (one header byte, then two per 64008-byte chunk after the first 252 bytes)", len, fill[0], n, exact)),
+                        Ok(_) => None,
+                    };
+                    if let Some(e) = err {
+                        if !relevant(&e) {
+                            rep.count("cases_failing_only_a_sibling_oracle", 1);
+                            continue;
+                        }
+                        let pieces = [Piece { lo: 0, hi: len, m: M::Borrow, d: D::None }];
+                        let id = CaseId { side: "enc", limits: None, data: &fill[..len], pieces: &pieces, prefill: false };
+                        let r = id.render();
+                        rep.violation(Violation { key: format!("{}:len:{}:{}", ctx.prop, fi, len), summary: format!("hcobs [{}]: {}", r, e), replay_text: format!("case: {}\nobserved: {}\n", r, e) });
+                        // one report per filling is enough
+                        break;
+                    }
+                }
+            }
+            lo = hi;
+        }
+    }
+    owning_iovec::verif::drain_quarantine();
+    rep.count("length_sweep_lengths", lengths);
+    rep.note(format!("length sweep: every input length 0..={} of 41-bytes and of FE-bytes through one borrowing encode call: output length within len + 1 + 2*ceil(len/64008) and equal to the length the format defines", max_len));
+}
